@@ -1905,6 +1905,8 @@ def gen_current_texts(rng, n, prefix="r"):
     for t in ["2001-9-9T1:46:40Z", "2001 - 09 - 09T01 : 46 : 40 Z", "+2001-09-09T01:46:40Z", "+12001-09-09T01:46:40Z", "12001-09-09T01:46:40Z",
               "-0001-01-01T00:00:00Z", "2016-12-31T23:59:60Z", "2016-12-31T23:59:60.5+09:00", "2001-09-09T01:46:61Z", "2001-09-09T24:00:00Z",
               "2001-09-09T01:60:00Z", "2001-13-01T00:00:00Z", "2001-00-09T01:46:40Z", "2001-09-00T01:46:40Z", "2001-09-32T01:46:40Z", "2001-04-31T00:00:00Z",
+              "2001-+9-09T01:46:40Z", "2001-09-+9T01:46:40Z", "2001--9-09T01:46:40Z", "2001-09--9T01:46:40Z", "2001-09-09T+1:46:40Z", "2001-09-09T01:+46:40Z",
+              "2001-09-09T01:46:+40Z", "2001-09-09T01:46:40-24:00", "2001-09-09T01:46:40+24:00", "2001-09-09T01:46:40-23:59", "2001-09-09T01:46:40+99:00",
               "2001-09-09T23:59:59Z", "2001-09-09T00:59:59Z", "2001-12-31T23:59:59Z", "2001-01-01T00:00:00Z", "2001-09-09T01:46:40+23:59", "2001-09-09T01:46:40-23:59",
               "-262143-01-01T00:00:00+00:00", "-262143-01-01T00:00:01+00:01", "+262142-12-31T23:59:59+00:00", "+262142-12-31T23:59:58-00:01",
               "-262142-01-01T00:00:00Z", "+262141-12-31T23:59:59Z", "2001-02-29T00:00:00Z", "2004-02-29T00:00:00Z", "2001-09-09T01:46:40.Z",
